@@ -206,7 +206,15 @@ func main() {
 	list := flag.Bool("list", false, "list components")
 	shard := flag.Int("shard", 0, "this process handles cases with index % shards == shard")
 	shards := flag.Int("shards", 1, "number of shard processes")
+	runnerChild := flag.String("runnerchild", "", "internal: run one `runner` fault in this process, print the outcome, exit at once")
 	flag.Parse()
+
+	if *runnerChild != "" {
+		// no cleanup on purpose: the assembled process contains the real ProgressTracker goroutine, whose
+		// by-value copy of its ticker can stall a process that stops and restarts it (DESIGN 10.1)
+		fmt.Fprintln(realStdout, "RESULT "+runnerOne(*runnerChild))
+		os.Exit(0)
+	}
 
 	if *list {
 		names := []string{}
